@@ -397,6 +397,8 @@ pub fn run(ctx: &'static Ctx, p: P) {
         {
             use rayon::prelude::*;
             let mut progs: Vec<(String, Vec<Op>)> = vec![];
+            // one operation of every kind that needs no prelude (offered after each byte-sum program)
+            let followers: Vec<Op> = (0..t.kinds().len() as u8).filter(|k| t.prelude(*k, t.shapes(*k)[0]).is_empty()).map(|k| Op { k, shape: t.shapes(k)[0], fill: crate::fill::Fill::b(3) }).collect();
             for k in 0..t.kinds().len() as u8 {
                 let shapes = t.shapes(k);
                 // FADT's set_field has one shape per field; elsewhere the first shapes suffice
@@ -437,6 +439,16 @@ pub fn run(ctx: &'static Ctx, p: P) {
                             let base = crate::fill::Fill::b(2);
                             let cur = base.raw(idx, 64);
                             ops.push(Op { k, shape, fill: base.with(idx, (cur & !0xff) | v) });
+                            // the running sum now has every residue in turn: what arrives next is one operation of every kind
+                            if si == 0 && Some(i) == first_wide {
+                                for nxt in &followers {
+                                    if nxt.k != k {
+                                        let mut o2 = ops.clone();
+                                        o2.push(*nxt);
+                                        progs.push((format!("{}[shape {} arg {} low byte {:#04x}] then {}", t.kinds()[k as usize], shape, idx, v, t.kinds()[nxt.k as usize]), o2));
+                                    }
+                                }
+                            }
                             ops.push(Op { k, shape, fill: crate::fill::Fill::b(1) });
                             progs.push((format!("{}[shape {} arg {} low byte {:#04x}]", t.kinds()[k as usize], shape, idx, v), ops));
                         }
@@ -581,6 +593,63 @@ pub fn value_programs(t: &dyn Table, quick: bool, options_only: bool) -> Vec<(St
                         let mut ops = pre.clone();
                         ops.push(Op { k, shape, fill: crate::fill::Fill::b(3).with(i as u8, a).with(j as u8, c) });
                         progs.push((format!("{}[shape {} args {} and {} {}]", kname, shape, i, j, name), ops));
+                    }
+                }
+            }
+            // the same special value of one argument in several entries of the kind (a per-table flag or cache keyed to that
+            // value is set by the first and must not be re-applied by the second), under every constructor variant
+            for (i, b) in wide.iter().copied() {
+                let m = if b >= 64 { u64::MAX } else { (1u64 << b) - 1 };
+                for v in [0u64, 1, m] {
+                    let mut ops = pre.clone();
+                    for base in [2u8, 3, 2] {
+                        ops.push(Op { k, shape, fill: crate::fill::Fill::b(base).with(i as u8, v) });
+                    }
+                    progs.push((format!("{}[shape {} arg {} = {:#x} in three entries]", kname, shape, i, v), ops));
+                }
+            }
+            // two arguments at special values at once (neither ordinary)
+            for (ai, (i, bi)) in wide.iter().copied().enumerate() {
+                for (j, bj) in wide.iter().copied().skip(ai + 1) {
+                    let special = |b: u32| -> Vec<u64> {
+                        let m = if b >= 64 { u64::MAX } else { (1u64 << b) - 1 };
+                        let mut v = vec![0u64, 1, 2, 0xff & m, 0x100 & m, 0xffff & m, 0x1000 & m, 0x10000 & m, m >> 1, (m >> 1) + 1, m - 1, m];
+                        v.sort();
+                        v.dedup();
+                        v
+                    };
+                    for a in special(bi) {
+                        for c in special(bj) {
+                            let mut ops = pre.clone();
+                            ops.push(Op { k, shape, fill: crate::fill::Fill::b(2).with(i as u8, a).with(j as u8, c) });
+                            progs.push((format!("{}[shape {} args {} = {:#x} and {} = {:#x}]", kname, shape, i, a, j, c), ops));
+                        }
+                    }
+                }
+            }
+            // an argument that coincides with the state of the table when the call arrives: the current length, the length
+            // after the entry, the number of entries so far, the previous entry's value of the same argument +- 1; once as
+            // first entry and once after two ordinary entries of the same kind
+            {
+                let c0 = t.ctors(0)[0];
+                for (i, b) in wide.iter().copied() {
+                    let m = if b >= 64 { u64::MAX } else { (1u64 << b) - 1 };
+                    for lead in [0usize, 2] {
+                        let mut base_ops = pre.clone();
+                        for n in 0..lead {
+                            base_ops.push(Op { k, shape, fill: crate::fill::Fill::b(if n == 0 { 2 } else { 3 }) });
+                        }
+                        let before = t.reference(&c0, &base_ops).image.len() as u64;
+                        let mut probe = base_ops.clone();
+                        probe.push(Op { k, shape, fill: crate::fill::Fill::b(2) });
+                        let after = t.reference(&c0, &probe).image.len() as u64;
+                        let prev = crate::fill::Fill::b(if lead == 0 { 2 } else { 3 }).raw(i as u8, b);
+                        for (name, val) in [("length before", before), ("length after", after), ("entry size", after.wrapping_sub(before)), ("body offset", before.wrapping_sub(36)), ("entries so far", base_ops.len() as u64), ("previous + 1", prev.wrapping_add(1)), ("previous - 1", prev.wrapping_sub(1)), ("previous", prev), ("length before, low byte", before & 0xff), ("minus length", 0u64.wrapping_sub(before))] {
+                            let mut ops = base_ops.clone();
+                            ops.push(Op { k, shape, fill: crate::fill::Fill::b(2).with(i as u8, val & m) });
+                            ops.push(Op { k, shape, fill: crate::fill::Fill::b(1) });
+                            progs.push((format!("{}[shape {} arg {} = {} ({:#x}) after {} entries]", kname, shape, i, name, val & m, lead), ops));
+                        }
                     }
                 }
             }
